@@ -32,7 +32,7 @@ TIERS = {
 ONLINE = {'which': ['lock'], 'foreign': ['C05', 'C11', 'C14', 'C20'], 'n': {'quick': 40, 'thorough': 600}}
 REQUIRED_BUCKETS = ['op:finalize', 'op:bind', 'op:parse', 'op:macro', 'op:register', 'op:register-same-object-again', 'op:external', 'op:clear', 'op:unlock', 'op:unlock-raises',
                     'op:unlock-nested', 'op:hookplan', 'op:poison', 'state:mutation-under-lock', 'state:double-finalize',
-                    'state:unlock-while-locked', 'state:unlock-raises-while-locked', 'state:finalize-inside-unlock',
+                    'state:unlock-while-locked', 'state:finalize-inside-active-config-scope', 'state:unlock-raises-while-locked', 'state:finalize-inside-unlock',
                     'reject:unbound-macro', 'reject:unevaluated-macro', 'reject:unknown-reference', 'reject:required', 'reject:unbound-macro-as-dict-key', 'reject:unknown-reference-unevaluated',
                     'reject:hook-conflict', 'reject:hook-conflict-spelling', 'reject:hook-conflict-same-value', 'op:register-hook', 'reject:hook-invalid-key', 'reject:hook-raises',
                     'hooks:return-bindings-applied', 'hooks:saw-pre-finalize-config', 'op:from-another-thread',
@@ -325,8 +325,16 @@ def run_ops(ctx, m, ops, depth, shape):
       if depth > 0 and not m.locked:
         ctx.bucket('state:finalize-inside-unlock')
       runs_before = [t['runs'] for t in _S.get('extra_hooks', [])]
+
+      def do_finalize():
+        # whether a config scope happens to be active while finalizing changes nothing
+        if (ctx.case_no + len(shape)) % 3 == 0:
+          ctx.bucket('state:finalize-inside-active-config-scope')
+          with gin.config_scope('c12scope/inner'):
+            return gin.finalize()
+        return gin.finalize()
       try:
-        call(gin.finalize)
+        call(do_finalize)
       except Exception as e:  # pylint: disable=broad-except
         got_exc = e
       if expect_exc is None and got_exc is None:
